@@ -32,6 +32,7 @@ type schedInput struct {
 	Regions []regionSpec `json:"regions"`
 	Arg     uint64       `json:"arg,omitempty"` // store of evict-leader / grant-leader
 	Hot     string       `json:"hot,omitempty"` // read | write: region 1 is hot and the stores' flow follows the load levels
+	Cap     int          `json:"cap,omitempty"` // run cap for the random-draw tree (default schedRunCap)
 }
 
 func (in *schedInput) String() string {
@@ -39,7 +40,10 @@ func (in *schedInput) String() string {
 	for _, r := range in.Regions {
 		l = append(l, r.String())
 	}
-	s := fmt.Sprintf("%s", in.Type)
+	if n := len(in.Regions); n > 2 {
+		l = []string{fmt.Sprintf("%d x %s", n, in.Regions[0])}
+	}
+	s := in.Type
 	if in.Arg != 0 {
 		s += fmt.Sprintf("(store %d)", in.Arg)
 	}
@@ -194,7 +198,14 @@ func (rn *runner) runSched(in *schedInput, cc *clusterCache) *violation {
 	}
 	var viol *violation
 	produced := false
-	n := enum.All(schedRunCap, func() {
+	runCap := schedRunCap
+	if in.Cap > 0 {
+		runCap = in.Cap
+	}
+	n := enum.All(runCap, func() {
+		if viol != nil {
+			return // no draws: the enumeration ends
+		}
 		rn.cnt.Runs++
 		s := shared
 		if s == nil {
@@ -245,12 +256,17 @@ type schedBounds struct {
 	levels  int  // load levels per store (2: {0,2}, 3: {0,1,2})
 	pending bool // also: one follower of region 1 pending
 	second  bool // also: a second region, role-disjoint with the first (no store holds the same role of both)
+	runCap  int  // run cap per input (0 = default)
+	clones  int  // instead: this many regions with the placement of the first (region draws then have many outcomes: capped)
 }
 
 func loadVectors(n, levels int) [][]int {
 	vals := []int{0, 2}
 	if levels >= 3 {
 		vals = []int{0, 1, 2}
+	}
+	if levels == 1 {
+		vals = []int{1}
 	}
 	out := [][]int{{}}
 	for i := 0; i < n; i++ {
@@ -287,6 +303,15 @@ func schedRegions(e envSpec, all bool) []regionSpec {
 					p.R = rL
 				}
 				ps = append(ps, p)
+			}
+			voterOnTiFlash := false
+			for _, p := range ps {
+				if p.R == rV && e.kind(p.S) == kTiFlash {
+					voterOnTiFlash = true // not a configuration that exists: TiFlash peers are learners
+				}
+			}
+			if voterOnTiFlash {
+				continue
 			}
 			for _, p := range ps {
 				if p.R == rV {
@@ -359,7 +384,15 @@ func genSched(envs []envSpec, b schedBounds) func(g *genCtx) {
 							continue
 						}
 						var regionSets [][]regionSpec
-						regionSets = append(regionSets, []regionSpec{r1})
+						if b.clones > 0 {
+							var rs []regionSpec
+							for i := 0; i < b.clones; i++ {
+								rs = append(rs, r1)
+							}
+							regionSets = append(regionSets, rs)
+						} else {
+							regionSets = append(regionSets, []regionSpec{r1})
+						}
 						if b.pending {
 							for _, p := range r1.Peers {
 								if p.S != r1.Leader {
@@ -377,7 +410,7 @@ func genSched(envs []envSpec, b schedBounds) func(g *genCtx) {
 						for _, rs := range regionSets {
 							for _, hot := range hots {
 								for _, ld := range loads {
-									g.emit(&input{Sched: &schedInput{Type: typ, Env: e, Load: ld, Regions: rs, Arg: arg, Hot: hot}})
+									g.emit(&input{Sched: &schedInput{Type: typ, Env: e, Load: ld, Regions: rs, Arg: arg, Hot: hot, Cap: b.runCap}})
 								}
 							}
 						}
